@@ -770,14 +770,15 @@ def _slices(configs, cursor=False):
 
 def _configs(tier: str):
     q = tier == "quick"
-    # (rows, sizes, history length) per class of configuration
+    # (rows, sizes, history length, first call) per class of configuration
     if q:
         core = dict(nmax=3, smin=-1, smax=2, maxops=2, first="all")
         rest = dict(nmax=3, smin=-1, smax=2, maxops=2, first="nonterminal")
-        core2 = core
+        deep = deep_nt = None
     else:
-        core = dict(nmax=3, smin=-1, smax=2, maxops=3, first="all")
-        rest = core2 = dict(nmax=4, smin=-1, smax=3, maxops=2, first="all")
+        core = rest = dict(nmax=4, smin=-1, smax=2, maxops=2, first="all")
+        deep = dict(nmax=3, smin=-1, smax=2, maxops=3, first="all")  # histories of length 3
+        deep_nt = dict(nmax=3, smin=-1, smax=2, maxops=3, first="nonterminal")
     mem, cur = [], []
 
     def M(src, flt, k=0, cls=None):
@@ -786,64 +787,57 @@ def _configs(tier: str):
     def C(strategy, flt, k=0, cls=None):
         cur.append(dict(strategy=strategy, flt=flt, k=k, **(cls or rest)))
 
-    M("iter", "plain", cls=core)
-    M("iter", "uniq1", cls=core)
-    M("merged", "plain", 1, cls=core2)
+    M("iter", "plain", cls=core if q else deep)
+    M("iter", "uniq1", cls=core if q else deep_nt)
+    M("merged", "plain", 1, cls=core)
     for flt in ("scalars0", "mappings", "columns10", "uniq_scalars", "uniq_strategy"):
         M("iter", flt)
     M("iter", "yield_per", 2)
     M("sscalar", "uniq1")
-    if not q:
-        M("iter", "uniq_yp", 2)
-        M("sscalar", "scalars1c")
     M("chunked", "yield_per", 2)
     M("chunked_dyn", "plain")
     M("chunked_dyn", "yield_per", 2)
     M("frozen", "plain")
     M("frozen_pre", "uniq_cols0")
     M("merged", "uniq1", 1)
-    C("default", "plain", cls=rest if q else core2)
-    C("buffered", "plain", cls=core)
+    C("default", "plain")
+    C("buffered", "plain", cls=core if q else deep_nt)
     C("fully", "plain", cls=core)
     C("buffered", "uniq_cols0")
     C("default_yp", "plain", 2)
     C("buffered_dflt", "plain")
     if not q:
+        M("iter", "uniq1")  # length <= 2 with every first call (the length-3 run starts with a non-closing call)
+        C("buffered", "plain")
         for flt in ("scalars1", "scalarsb", "columnsb", "map_columns10", "uniq_cols0", "uniq_then_scalars", "uniq_map"):
             M("iter", flt)
-        for k in (1, 3):
-            M("iter", "yield_per", k)
-            M("iter", "uniq_yp", k)
-            M("chunked", "yield_per", k)
-            M("chunked_dyn", "yield_per", k)
+        M("iter", "uniq_yp", 2)
         M("iter", "scalars_yp", 2)
-        for flt in ("plain1", "mappings1", "uniq_scalars1"):
+        M("iter", "yield_per", 1)
+        M("iter", "yield_per", 3)
+        for flt in ("plain1", "scalars1c", "mappings1", "uniq_scalars1"):
             M("sscalar", flt)
-        for src in ("chunked", "chunked_dyn"):
-            for flt in ("plain", "uniq1", "scalars0"):
-                if not (src == "chunked_dyn" and flt == "plain"):
-                    M(src, flt)
-        for flt in ("uniq1", "columns10", "mappings"):
-            M("frozen", flt)
-        for flt in ("plain", "uniq1", "columns10"):
-            M("frozen_pre", flt)
-        for k in (0, 2):
-            M("merged", "plain", k)
-            M("merged", "uniq1", k)
+        M("chunked", "plain")
+        M("chunked", "uniq1")
+        M("chunked_dyn", "uniq1")
+        M("chunked_dyn", "yield_per", 3)
+        M("frozen", "uniq1")
+        M("frozen", "columns10")
+        M("frozen_pre", "plain")
+        M("frozen_pre", "columns10")
+        M("merged", "plain", 0)
+        M("merged", "plain", 2)
         M("merged", "scalars0", 1)
         M("merged3", "plain", 1)
-        M("merged3", "uniq1", 1)
-        for st in ("default", "buffered", "fully"):
-            for flt in CURSOR_FILTERS:
-                if not (flt == "plain" or (st == "buffered" and flt == "uniq_cols0")):
-                    C(st, flt)
-        for st in ("default_yp", "buffered_yp", "fully_yp"):
-            for k in ((1, 2, 3) if st == "default_yp" else (2,)):
-                if not (st == "default_yp" and k == 2):
-                    C(st, "plain", k)
-            C(st, "uniq_cols0", 2)
+        C("default", "uniq_cols0")
+        C("fully", "uniq_cols0")
+        C("buffered", "scalars0")
+        C("fully", "mappings")
+        C("buffered_yp", "plain", 2)
+        C("fully_yp", "plain", 2)
+        C("default_yp", "plain", 1)
         C("buffered_dflt", "uniq_cols0")
-    return mem, cur, core, rest
+    return mem, cur, core, rest, deep
 
 
 def _describe(c):
@@ -854,15 +848,19 @@ def _describe(c):
 
 def harnesses(tier: str) -> List[Harness]:
     q = tier == "quick"
-    mem, cur, core, rest = _configs(tier)
-    META["bounds"][tier] = {
-        "core configurations (iter/plain, iter/unique; cursor buffered, fully buffered%s)"
-        % (", merged/plain, cursor default" if q else ""): _describe(core),
-        "other configurations": _describe(rest),
+    mem, cur, core, rest, deep = _configs(tier)
+    b = {
         "first-column values": "0..2 where uniquing hashes them, unconstrained ints otherwise",
         "max_row_buffer": "1..7 symbolic", "yield_per": "2" if q else "1..3",
         "configurations": sorted({"%s/%s" % (c["src"], c["flt"]) for c in mem} | {"cursor:%s/%s" % (c["strategy"], c["flt"]) for c in cur}),
     }
+    if q:
+        b["core configurations (iter/plain, iter/uniq1, merged/plain; cursor buffered/plain, fully/plain)"] = _describe(core)
+        b["other configurations"] = _describe(rest)
+    else:
+        b["all configurations"] = _describe(rest)
+        b["additionally iter/plain (any first call) and iter/uniq1, cursor buffered/plain (first call leaves the result open)"] = _describe(deep)
+    META["bounds"][tier] = b
     return [
         Harness("mem", h_mem, _slices(mem), budget_s=240 if q else 1500),
         Harness("cur", h_cur, _slices(cur, cursor=True), budget_s=240 if q else 1500),
